@@ -27,8 +27,29 @@ def flows(c, depth, num):
     return out[:num]
 
 
+MODES_CFG = 'CONSTANTS\n  Vars = {"PK", "KEK", "db"}\n  Entries = {"c1"}\n  Keys = {"pkkey", "kekkey"}\n  Depth = %d\n'
+
+
+def mode_stories(c, depth, num):
+    """Platform-mode behaviours of spec/SecureBootFlow.tla (Vars with PK): design check, then simulated behaviours that read the modes."""
+    chk = MODES_CFG % 5 + "SPECIFICATION MCSpec\nINVARIANTS RmwKeepsOthers SbOnlyInUserMode\nPROPERTIES OnlyBoundAuthorised Monotone NoReplay SetupLeftOnlyByEnrolment\nCONSTRAINT Bound\nVIEW View\nCHECK_DEADLOCK FALSE\n"
+    c.tlc("MC_SecureBootFlow", "mchk.cfg", files={"mchk.cfg": chk}, name="modes-design-check", timeout=1800)
+    gen = MODES_CFG % depth + "INIT MCInit\nNEXT MCNext\nCONSTRAINT Emit\nCONSTRAINT Bound\nCHECK_DEADLOCK FALSE\n"
+    r = c.tlc("MC_SecureBootFlow", "mgen.cfg", files={"mgen.cfg": gen}, simulate=num * 4, depth=depth + 1, name="modes-simulate", must_pass=False)
+    seen, out = set(), []
+    for h in r.json_lines():
+        ops = [s["op"] for s in h]
+        k = json.dumps(h)
+        if k in seen or "modes" not in ops or "submit" not in ops:
+            continue
+        seen.add(k); out.append(h)
+    c.rng.shuffle(out)
+    return out[:num]
+
+
 def run_flow(c, kinds, num, depth=6):
-    hs = flows(c, depth, num)
+    modes = "modes" in kinds
+    hs = mode_stories(c, depth + 2, num) if modes else flows(c, depth, num)
     # plus the canonical stories: cross-variable replay, old-update replay, unauthorised key, same-second second update
     P = lambda v, ed, e, k: {"op": "produce", "v": v, "edit": ed, "e": e, "k": k}
     S = lambda i, t: {"op": "submit", "i": i, "target": t}
@@ -38,7 +59,16 @@ def run_flow(c, kinds, num, depth=6):
            [P("KEK", "append", "c1", "pkkey"), S(1, "KEK"), R("KEK"), T, P("KEK", "remove", "c1", "kekkey"), S(2, "KEK"), R("KEK"), P("KEK", "append", "h1", "other"), S(3, "KEK"), R("KEK")],
            [P("db", "append", "h1", "kekkey"), S(1, "db"), P("db", "append", "c1", "kekkey"), S(2, "db"), R("db"), T, P("db", "remove", "h1", "kekkey"), S(3, "db"), R("db")],
            [P("dbx", "append", "h1", "pkkey"), S(1, "dbx"), R("dbx"), P("dbx", "append", "h1", "kekkey"), S(2, "dbx"), R("dbx"), S(2, "db"), R("db")]]
-    scen = [{"sc": 5 * 10 ** 6 + i, "kinds": list(kinds), "steps": [{k: v for k, v in s.items() if k not in ("accepted", "db")} for s in h]} for i, h in enumerate(hs)]
+    if modes:
+        M_ = {"op": "modes"}
+        SB = lambda on: {"op": "togglesb", "on": on}
+        # enrolment in setup mode, enforcement on, an unauthorised and an authorised KEK update, clearing the platform key, enforcement refused in setup mode
+        hs = hs + [[M_, SB(True), M_, P("PK", "append", "c1", "pkkey"), S(1, "PK"), M_, SB(True), M_, P("KEK", "append", "c1", "kekkey"), S(2, "KEK"), R("KEK"), T,
+                    P("KEK", "append", "c1", "pkkey"), S(3, "KEK"), R("KEK"), T, P("PK", "remove", "c1", "pkkey"), S(4, "PK"), M_, R("PK"), SB(True), M_],
+                   [P("db", "append", "c1", "kekkey"), S(1, "db"), R("db"), M_, P("PK", "append", "c1", "kekkey"), S(2, "PK"), M_, T, P("PK", "append", "c1", "pkkey"), S(3, "PK"), M_,
+                    SB(True), M_, SB(False), M_]]
+        hs = [h for h in hs if any(s["op"] == "modes" for s in h)]
+    scen = [{"sc": 5 * 10 ** 6 + i, "kinds": list(kinds), "modes": modes, "steps": [{k: v for k, v in s.items() if k not in ("accepted", "db", "setup", "sb")} for s in h]} for i, h in enumerate(hs)]
     env = dict(os.environ, VERIF_FIXTURES=os.path.join(vf.VERIF, "fixtures"))
     res, deaths = c.run_worker("flow", scen, env=env, timeout=1800)
     events, owner = [], []
